@@ -56,7 +56,10 @@ def _instances():
     from semantiva.data_processors.data_processors import _BaseDataProcessor
     from semantiva.context_processors.context_processors import ContextProcessor
     from semantiva.execution.transport.base import Message
-    n = {"nodes": 0, "processors": 0, "messages": 0}
+    from semantiva.pipeline import Pipeline
+    from semantiva.trace.drivers.jsonl import JsonlTraceDriver
+    from concurrent.futures import Future
+    n = {"nodes": 0, "processors": 0, "messages": 0, "pipelines": 0, "drivers": 0, "futures": 0}
     # instances held as class attributes of registered (generated) classes are part of the class-registry residue
     # (finding F-C18-a: e.g. the generated context-processor node class stores its processor instance); they are
     # accounted to the registry count, not to the instance population
@@ -75,6 +78,12 @@ def _instances():
                 n["processors"] += 1
             elif isinstance(o, Message):
                 n["messages"] += 1
+            elif isinstance(o, Pipeline):
+                n["pipelines"] += 1
+            elif isinstance(o, JsonlTraceDriver):
+                n["drivers"] += 1
+            elif isinstance(o, Future):
+                n["futures"] += 1
         except Exception:  # noqa - objects with odd __class__ behaviour
             pass
     return n
@@ -255,6 +264,99 @@ def measure(job):
     import shutil
     shutil.rmtree(tmp, ignore_errors=True)
     return res
+
+
+def measure_master(points):
+    """A long-lived master (QueueSemantivaOrchestrator.run_forever) + one real worker; succeeding and failing jobs are
+    enqueued with return_future=True and their Futures awaited and dropped.  Sampled after `points` completed jobs:
+    the master's table of pending Futures and the live instance population."""
+    import time
+    from harness.lib import pipegen as pg
+    pg.setup_impl()
+    from semantiva.execution.executor.executor import SequentialSemantivaExecutor
+    from semantiva.execution.job_queue.queue_orchestrator import QueueSemantivaOrchestrator
+    from semantiva.execution.job_queue.worker import worker_loop
+    from semantiva.execution.transport import InMemorySemantivaTransport
+    from semantiva.logger import Logger
+    lg = Logger(level="CRITICAL", console_output=False)
+    tr = InMemorySemantivaTransport()
+    orch = QueueSemantivaOrchestrator(tr, stop_event=None, logger=lg)
+    stop = threading.Event()
+    mt = threading.Thread(target=orch.run_forever, daemon=True)
+    wt = threading.Thread(target=worker_loop, args=(0, tr, SequentialSemantivaExecutor(), stop, lg, 0.002), daemon=True)
+    mt.start()
+    wt.start()
+    ok_cfg = [{"processor": "FloatValueDataSource", "parameters": {"value": 1.0}},
+              {"processor": "FloatMultiplyOperation", "parameters": {"factor": 2.0}}]
+    bad_cfg = [{"processor": "FloatValueDataSource", "parameters": {"value": 1.0}},
+               {"processor": "FloatDivideOperation", "parameters": {"divisor": 0.0}}]
+    res = {"samples": {}, "status": "ok", "outcomes": {"result": 0, "exception": 0}}
+    done = 0
+    try:
+        for p in sorted(points):
+            futs = [orch.enqueue(ok_cfg if (done + i) % 2 == 0 else bad_cfg, return_future=True) for i in range(p - done)]
+            t0 = time.time()
+            for f in futs:
+                try:
+                    f.result(timeout=max(1.0, 60 - (time.time() - t0)))
+                    res["outcomes"]["result"] += 1
+                except Exception as ex:  # noqa
+                    if type(ex).__name__ == "TimeoutError":
+                        raise
+                    res["outcomes"]["exception"] += 1
+            del futs
+            try:
+                del f
+            except NameError:
+                pass
+            done = p
+            time.sleep(0.5)         # let the master finish its iteration
+            gc.collect()
+            res["samples"][str(p)] = {"pending_futures": len(orch.pending_futures), "inst": _instances()}
+    except Exception as ex:  # noqa
+        import traceback
+        res["status"] = "exception %s: %s" % (type(ex).__name__, str(ex)[:200])
+        res["tb"] = traceback.format_exc()[-1200:]
+    finally:
+        orch.stop()
+        stop.set()
+        mt.join(3)
+        wt.join(3)
+    return res
+
+
+if __name__ == "__main__" and "--measure-master" in sys.argv:
+    import logging
+    logging.disable(logging.CRITICAL)
+    _real = sys.stdout
+    sys.stdout = sys.stderr
+    _out = measure_master(json.load(sys.stdin))
+    sys.stdout = _real
+    sys.stdout.write(json.dumps(_out))
+    sys.exit(0)
+
+
+def master_oracle(ck, thorough):
+    """C18, queue master: no per-job residue in the master after succeeding AND failing jobs."""
+    pts = [4, 12, 36] if thorough else [2, 6, 18]
+    r, err = core.run_impl("props/c18.py", args=["--measure-master"], input_obj=pts, timeout=240)
+    if r is None:
+        ck.corr_problem("queue-master measurement did not complete", str(err)[-1200:])
+        return None
+    if r.get("status") != "ok" or len(r["samples"]) != len(pts):
+        ck.corr_problem("queue-master measurement failed: %s" % r.get("status"), r.get("tb", ""))
+        return r
+    a, b = str(pts[-2]), str(pts[-1])
+    sa, sb = r["samples"][a], r["samples"][b]
+    rep = {"kind": "queue-master", "points": pts, "samples": r["samples"], "jobs": "alternating [source, multiply] and [source, divide by 0]"}
+    if sb["pending_futures"] > sa["pending_futures"]:
+        ck.fail_input("C18:master-pending-futures-growth", "the master's pending_futures table grows with the number of completed jobs: "
+                      "%d after %s jobs, %d after %s jobs (half of them fail on the worker)" % (sa["pending_futures"], a, sb["pending_futures"], b), rep)
+    for cat in ("futures", "pipelines", "nodes", "processors"):
+        if sb["inst"][cat] > sa["inst"][cat]:
+            ck.fail_input("C18:live-instance-growth:%s:queue-master" % cat, "live %s instances grow with the number of completed jobs in a "
+                          "long-lived master: %d after %s jobs, %d after %s jobs" % (cat, sa["inst"][cat], a, sb["inst"][cat], b), rep)
+    return r
 
 
 if __name__ == "__main__" and "--measure" in sys.argv:
@@ -473,7 +575,7 @@ def oracle(ck, case, r, reported):
                           "%d after job %d, %d after job %d" % (smp[a]["jobchannels"], a, smp[b]["jobchannels"], b)))
         ia, ib = smp[a].get("inst"), smp[b].get("inst")
         if ia and ib:
-            cats = ["nodes", "processors"] + (["messages"] if way in ("fresh", "worker") else [])
+            cats = ["nodes", "processors", "pipelines", "drivers", "futures"] + (["messages"] if way in ("fresh", "worker") else [])
             for cat in cats:
                 if ib[cat] > ia[cat]:
                     found.append(("C18:live-instance-growth:%s:%s" % (cat, WAY_SIG[way]),
@@ -500,6 +602,7 @@ def run(ck):
     proved = ck.prove(gen_results=gen)
     if thorough and proved:
         ck.coqchk()
+    ck.notes["queue_master"] = master_oracle(ck, thorough)
     facts = None
     try:
         from harness.translate import registry as tr
